@@ -245,6 +245,19 @@ func newE1(c *Ctx, guars []*Guar) *e1 {
 			g.facts = append(g.facts, mustFactPattern(f))
 		}
 		e.guars[g.Fn] = g
+		for _, q := range g.facts {
+			if !factPreds[q.S] {
+				dup := false
+				for _, x := range abstractDefs[q.S] {
+					if x == g {
+						dup = true
+					}
+				}
+				if !dup {
+					abstractDefs[q.S] = append(abstractDefs[q.S], g)
+				}
+			}
+		}
 		e.relevant = append(e.relevant, g.facts...)
 		e.addRelevant(g.Proof...)
 	}
@@ -2468,6 +2481,72 @@ type solveResult struct {
 	used   []string
 }
 
+// abstractDefs: abstract predicate name -> the guarantees that establish it (their Proof is its definition).
+var abstractDefs = map[string][]*Guar{}
+
+var expandDepth int
+
+// renameApart returns the pattern with every pattern variable prefixed.
+func renameApart(t *Term, prefix string) *Term {
+	if t.K == "pv" {
+		return mk("pv", prefix+t.S)
+	}
+	if len(t.A) == 0 {
+		return t
+	}
+	n := &Term{K: t.K, S: t.S, Obj: t.Obj}
+	for _, a := range t.A {
+		n.A = append(n.A, renameApart(a, prefix))
+	}
+	return n
+}
+
+func renameClause(c Clause, prefix string) Clause {
+	out := Clause{Src: c.Src}
+	for _, alt := range c.Alts {
+		var na []*Term
+		for _, a := range alt {
+			na = append(na, renameApart(a, prefix))
+		}
+		out.Alts = append(out.Alts, na)
+	}
+	return out
+}
+
+// holdsByDefinition: an abstract predicate that is not in the state holds when the clauses its guarantee proves hold
+// right here (the guaranteed function's body was moved into this function, or interpreted in place).
+func holdsByDefinition(st *fstate, g *Term) (bool, string) {
+	if expandDepth >= 3 {
+		return false, ""
+	}
+	for _, gu := range abstractDefs[g.S] {
+		if len(gu.Proof) == 0 {
+			continue
+		}
+		for _, q := range gu.facts {
+			if q.S != g.S {
+				continue
+			}
+			prefix := fmt.Sprintf("d%d_", expandDepth)
+			nb := Bind{}
+			if !unify(renameApart(q, prefix), g, nb) {
+				continue
+			}
+			var clauses []Clause
+			for _, src := range gu.Proof {
+				clauses = append(clauses, renameClause(mustClause(src), prefix))
+			}
+			expandDepth++
+			res := solve(st, clauses, nb)
+			expandDepth--
+			if res.ok {
+				return true, "definition of " + g.S + " (guarantee of " + gu.Fn + ")"
+			}
+		}
+	}
+	return false, ""
+}
+
 // customPreds: repository-specific predicates evaluated on ground terms with access to the state.
 var customPreds = map[string]func(st *fstate, args []*Term) bool{}
 
@@ -2651,6 +2730,11 @@ func solve(st *fstate, clauses []Clause, b Bind) solveResult {
 				if matchAll(pats, i+1, nb, append(used, fc.String()), k) {
 					return true
 				}
+			}
+		}
+		if !factPreds[p.S] && customPreds[p.S] == nil {
+			if ok, how := holdsByDefinition(st, subst(p, b)); ok {
+				return matchAll(pats, i+1, b, append(used, how), k)
 			}
 		}
 		return false
